@@ -117,6 +117,21 @@ def check_first_chunk(ck):
         whitelist = frozenset(whitelist) if isinstance(whitelist, (tuple, frozenset)) else UNK
     except (q.NotFoldable, AnalysisError):
         whitelist = UNK
+    # every class-level constant of the transform is available to the evaluation as self.<NAME> (a refactoring may
+    # move a literal there, or add a table next to CONTENT_TYPES)
+    class_consts = {}
+    for st in ck.repo.cls(WEB, GZ).body:
+        tgt = st.targets[0] if isinstance(st, ast.Assign) and len(st.targets) == 1 else (st.target if isinstance(st, ast.AnnAssign) and st.value is not None else None)
+        if isinstance(tgt, ast.Name):
+            try:
+                v = q.fold(st.value, {})
+            except Exception:
+                continue
+            try:
+                hash(v)
+            except TypeError:
+                continue
+            class_consts["self." + tgt.id] = frozenset(v) if isinstance(st.value, ast.Set) else v
     # Content types used as probes.  The property does not enumerate the compressible set (tornado's whitelist is a
     # tunable class attribute); what it does fix is that opaque, already-compressed media are not compressible.
     PROBES = (("text/html; charset=UTF-8", True), ("image/png", False), ("application/zip", False), ("application/octet-stream; x=1", False), ("video/mp4", False))
@@ -178,8 +193,9 @@ def check_first_chunk(ck):
     for (gz_in, finishing, big), (ctype_probe, compressible) in itertools.product(itertools.product((False, True), repeat=3), PROBES):
         for present in itertools.product((False, True), repeat=3):
             hin = frozenset(nm for nm, p in zip(names, present) if p) | {"Content-Type"}
-            init = {FLAG: gz_in, fin: finishing, hd: hin, "%s[%r]" % (hd, "Content-Type"): ctype_probe, "self.CONTENT_TYPES": whitelist, len_key: (10 ** 6 if big else 0), "self.MIN_LENGTH": min_len,
-                    "@vary": None, "@ce": None, "@cl": None, "@transformed": False, "@chunkvar": chunk, "@ret": None, "@resolve": resolver}
+            init = dict(class_consts)
+            init.update({FLAG: gz_in, fin: finishing, hd: hin, "%s[%r]" % (hd, "Content-Type"): ctype_probe, "self.CONTENT_TYPES": whitelist, len_key: (10 ** 6 if big else 0), "self.MIN_LENGTH": min_len,
+                    "@vary": None, "@ce": None, "@cl": None, "@transformed": False, "@chunkvar": chunk, "@ret": None, "@resolve": resolver})
             states = peval(fi.cfg, init, hook=hook, known_self_methods=ksm, track=lambda t: True)
             exits = states.get(fi.cfg.exit.id, [])
             if not exits:
